@@ -640,6 +640,25 @@ theorem load_rejects_schema_empty_array (hv : VersionSupported s)
     injection hds with hds
     exact hne hds.symm
 
+/-- a value whose JSON kind does not match the `type` the schema declares for its position — in particular a float
+    with zero fractional part (`4.0`, `1e3`, the result of a Jinja true division) or a boolean in an `integer`
+    position — is rejected by schema validation (draft-04 semantics) -/
+theorem load_rejects_schema_type (hv : VersionSupported s)
+    (hr : ∃ p ∈ s.typed, typeOk p.1 p.2 = false) :
+    load tbl sel user used s = .error (.schema .type) := by
+  obtain ⟨p, hp, hbad⟩ := hr
+  apply load_rejects_schema_violation tbl sel user used s hv
+  unfold schemaCheck
+  rw [if_pos]
+  exact List.any_eq_true.mpr ⟨p, hp, by simp [hbad]⟩
+
+/-- draft-04 `integer` accepts exactly the JSON integers, `number` every number, and booleans are never numbers -/
+theorem typeOk_integer (k : JKind) : typeOk .integer k = true ↔ k = .int := by
+  cases k <;> simp [typeOk]
+
+theorem typeOk_number (k : JKind) : typeOk .number k = true ↔ (k = .int ∨ k = .intFloat ∨ k = .float) := by
+  cases k <;> simp [typeOk]
+
 /-! ## 3. Operation types -/
 
 theorem fromHyphenated_of_nodup :
@@ -695,6 +714,111 @@ theorem model_constants_agree :
        ("track".toList, [])] := by
   decide +kernel
 
+/-- the `type` declarations of the schema file the model relies on: every position the typed view `Spec` reads
+    (a `Nat` field relies on `integer`, a `Str` field on `string`, …); template families, `cluster-settings` and the
+    pass-through parameters of operations are not interpreted by the model -/
+def reliedTypes : List (Str × Str) :=
+  [
+   ("#".toList, "object".toList),
+   ("#/properties/description".toList, "string".toList),
+   ("#/properties/version".toList, "integer".toList),
+   ("#/properties/meta".toList, "object".toList),
+   ("#/properties/indices".toList, "array".toList),
+   ("#/properties/indices/items".toList, "object".toList),
+   ("#/properties/indices/items/properties/name".toList, "string".toList),
+   ("#/properties/indices/items/properties/types".toList, "array".toList),
+   ("#/properties/data-streams".toList, "array".toList),
+   ("#/properties/data-streams/items".toList, "object".toList),
+   ("#/properties/data-streams/items/properties/name".toList, "string".toList),
+   ("#/properties/corpora".toList, "array".toList),
+   ("#/properties/corpora/items".toList, "object".toList),
+   ("#/properties/corpora/items/properties/name".toList, "string".toList),
+   ("#/properties/corpora/items/properties/base-url".toList, "string".toList),
+   ("#/properties/corpora/items/properties/source-format".toList, "string".toList),
+   ("#/properties/corpora/items/properties/includes-action-and-meta-data".toList, "boolean".toList),
+   ("#/properties/corpora/items/properties/target-index".toList, "string".toList),
+   ("#/properties/corpora/items/properties/target-data-stream".toList, "string".toList),
+   ("#/properties/corpora/items/properties/target-type".toList, "string".toList),
+   ("#/properties/corpora/items/properties/meta".toList, "object".toList),
+   ("#/properties/corpora/items/properties/documents".toList, "array".toList),
+   ("#/properties/corpora/items/properties/documents/items".toList, "object".toList),
+   ("#/properties/corpora/items/properties/documents/items/properties/base-url".toList, "string".toList),
+   ("#/properties/corpora/items/properties/documents/items/properties/source-file".toList, "string".toList),
+   ("#/properties/corpora/items/properties/documents/items/properties/source-format".toList, "string".toList),
+   ("#/properties/corpora/items/properties/documents/items/properties/document-count".toList, "integer".toList),
+   ("#/properties/corpora/items/properties/documents/items/properties/includes-action-and-meta-data".toList, "boolean".toList),
+   ("#/properties/corpora/items/properties/documents/items/properties/compressed-bytes".toList, "integer".toList),
+   ("#/properties/corpora/items/properties/documents/items/properties/uncompressed-bytes".toList, "integer".toList),
+   ("#/properties/corpora/items/properties/documents/items/properties/target-index".toList, "string".toList),
+   ("#/properties/corpora/items/properties/documents/items/properties/target-type".toList, "string".toList),
+   ("#/properties/corpora/items/properties/documents/items/properties/meta".toList, "object".toList),
+   ("#/properties/operations".toList, "array".toList),
+   ("#/properties/operations/items".toList, "object".toList),
+   ("#/properties/operations/items/properties/name".toList, "string".toList),
+   ("#/properties/operations/items/properties/meta".toList, "object".toList),
+   ("#/properties/operations/items/properties/operation-type".toList, "string".toList),
+   ("#/properties/challenges".toList, "array".toList),
+   ("#/properties/dependencies".toList, "array".toList),
+   ("#/properties/dependencies/items".toList, "string".toList),
+   ("#/definitions/schedule".toList, "array".toList),
+   ("#/definitions/schedule/items".toList, "object".toList),
+   ("#/definitions/schedule/items/properties/parallel".toList, "object".toList),
+   ("#/definitions/schedule/items/properties/parallel/properties/clients".toList, "integer".toList),
+   ("#/definitions/schedule/items/properties/parallel/properties/warmup-iterations".toList, "integer".toList),
+   ("#/definitions/schedule/items/properties/parallel/properties/iterations".toList, "integer".toList),
+   ("#/definitions/schedule/items/properties/parallel/properties/ramp-up-time-period".toList, "integer".toList),
+   ("#/definitions/schedule/items/properties/parallel/properties/warmup-time-period".toList, "integer".toList),
+   ("#/definitions/schedule/items/properties/parallel/properties/time-period".toList, "integer".toList),
+   ("#/definitions/schedule/items/properties/parallel/properties/completed-by".toList, "string".toList),
+   ("#/definitions/schedule/items/properties/parallel/properties/tasks".toList, "array".toList),
+   ("#/definitions/schedule/items/properties/parallel/properties/tasks/items".toList, "object".toList),
+   ("#/definitions/schedule/items/properties/parallel/properties/tasks/items/properties/name".toList, "string".toList),
+   ("#/definitions/schedule/items/properties/parallel/properties/tasks/items/properties/meta".toList, "object".toList),
+   ("#/definitions/schedule/items/properties/parallel/properties/tasks/items/properties/clients".toList, "integer".toList),
+   ("#/definitions/schedule/items/properties/parallel/properties/tasks/items/properties/warmup-iterations".toList, "integer".toList),
+   ("#/definitions/schedule/items/properties/parallel/properties/tasks/items/properties/iterations".toList, "integer".toList),
+   ("#/definitions/schedule/items/properties/parallel/properties/tasks/items/properties/ramp-up-time-period".toList, "integer".toList),
+   ("#/definitions/schedule/items/properties/parallel/properties/tasks/items/properties/warmup-time-period".toList, "integer".toList),
+   ("#/definitions/schedule/items/properties/parallel/properties/tasks/items/properties/time-period".toList, "integer".toList),
+   ("#/definitions/schedule/items/properties/parallel/properties/tasks/items/properties/schedule".toList, "string".toList),
+   ("#/definitions/schedule/items/properties/parallel/properties/tasks/items/properties/target-interval".toList, "number".toList),
+   ("#/definitions/schedule/items/properties/parallel/properties/tasks/items/properties/ignore-response-error-level".toList, "string".toList),
+   ("#/definitions/schedule/items/properties/parallel/properties/tasks/items/properties/run-on-serverless".toList, "boolean".toList),
+   ("#/definitions/schedule/items/properties/name".toList, "string".toList),
+   ("#/definitions/schedule/items/properties/meta".toList, "object".toList),
+   ("#/definitions/schedule/items/properties/clients".toList, "integer".toList),
+   ("#/definitions/schedule/items/properties/warmup-iterations".toList, "integer".toList),
+   ("#/definitions/schedule/items/properties/iterations".toList, "integer".toList),
+   ("#/definitions/schedule/items/properties/ramp-up-time-period".toList, "integer".toList),
+   ("#/definitions/schedule/items/properties/warmup-time-period".toList, "integer".toList),
+   ("#/definitions/schedule/items/properties/time-period".toList, "integer".toList),
+   ("#/definitions/schedule/items/properties/target-interval".toList, "number".toList),
+   ("#/definitions/challenge".toList, "object".toList),
+   ("#/definitions/challenge/properties/name".toList, "string".toList),
+   ("#/definitions/challenge/properties/default".toList, "boolean".toList),
+   ("#/definitions/challenge/properties/meta".toList, "object".toList),
+   ("#/definitions/challenge/properties/description".toList, "string".toList)
+  ]
+
+/-- the `$ref`s of the schema file (where `challenge`, `challenges`, `schedule` point to) -/
+def reliedRefs : List (Str × Str) :=
+  [
+   ("#/properties/challenges/items".toList, "#/definitions/challenge".toList),
+   ("#/properties/challenge".toList, "#/definitions/challenge".toList),
+   ("#/properties/schedule".toList, "#/definitions/schedule".toList),
+   ("#/definitions/challenge/properties/schedule".toList, "#/definitions/schedule".toList)
+  ]
+
+/-- **the schema file declares what the model assumes**: the draft (draft-04: `integer` never matches a float, so
+    `4.0` / `1e3` / the result of a Jinja true division are rejected in integer positions — `typeOk` models exactly that
+    draft), the declared type of every position the model relies on, and the `$ref`s.  A change of the schema file that
+    alters what is accepted breaks this obligation. -/
+theorem schema_types_agree :
+    RallyGen.SchemaRules.draft = "http://json-schema.org/draft-04/schema#".toList ∧
+    (∀ p ∈ reliedTypes, p ∈ RallyGen.SchemaRules.types) ∧
+    RallyGen.SchemaRules.refs = reliedRefs := by
+  decide +kernel
+
 /-! ## 4. Non-vacuity: concrete specifications for every theorem above -/
 namespace Examples
 
@@ -716,7 +840,7 @@ def mkChallenge (name : String) (sch : List ElemSpec) : ChallengeSpec :=
 def mkSpec (sch : List ElemSpec) : Spec :=
   { version := some 2, description := none, metaData := [], indices := [], dataStreams := [], corpora := [],
     operations := [], parameters := [], schedule := some sch, challenge := none, challenges := none,
-    dependencies := [] }
+    dependencies := [], typed := [] }
 
 def mkDoc (file : String) : DocSpec :=
   { baseUrl := none, sourceFormat := none, sourceFile := some file.toList, documentCount := some 10,
@@ -901,6 +1025,13 @@ example : RejectedAsSyntaxError tblS none [] [] { good with corpora := [mkCorpus
   load_rejects_schema_minimum_in_corpora tblS none [] [] _ (by decide +kernel) (by decide +kernel)
 example : RejectedAsSyntaxError tblS none [] [] (mkSpec [.parallel (mkPar [])]) :=
   load_rejects_schema_empty_array tblS none [] [] _ (by decide +kernel) (by decide +kernel)
+
+/-- `"clients": 4.0` in an otherwise valid track -/
+example : load tblS none [] [] { good with typed := [(.string, .str), (.integer, .int), (.integer, .intFloat)] } =
+    .error (.schema .type) :=
+  load_rejects_schema_type tblS none [] [] _ (by decide +kernel) (by decide +kernel)
+example : load tblS none [] [] { good with typed := [(.string, .str), (.integer, .int), (.number, .intFloat), (.boolean, .bool)] } =
+    .ok (denote tblS none good) := by decide +kernel
 
 example : load tblS none ["now".toList] ["now".toList] good = .error .reservedParams := by decide +kernel
 example : ∃ p ∈ ["now".toList], p ∈ reservedParams := by decide +kernel
